@@ -687,6 +687,39 @@ func checkMidicatHistory(c *mon.Ctx, h *hist, desc map[string]any, nports int) {
 			}
 		}
 	}
+	// an excerpt of the recorded history for the evidence file: the events around the first stop
+	if len(h.stops) > 0 && len(h.delivs) > 0 {
+		type line struct {
+			at int64
+			s  string
+		}
+		var ls []line
+		pivot := h.stops[0].call
+		for _, s := range h.sends {
+			if s.ret > pivot-40 && s.call < pivot+40 {
+				ls = append(ls, line{s.call, fmt.Sprintf("@%d..%d sender %d port %d Send(msg %d/%d) err=%v", s.call, s.ret, s.sender, s.port, s.id>>28, s.id&(1<<28-1), s.err)})
+			}
+		}
+		for _, d := range h.delivs {
+			if d.exit > pivot-40 && d.entry < pivot+40 {
+				ls = append(ls, line{d.entry, fmt.Sprintf("@%d..%d listener %d port %d callback(msg %d/%d)", d.entry, d.exit, d.listener, d.port, d.id>>28, d.id&(1<<28-1))})
+			}
+		}
+		for _, st := range h.stops {
+			if st.ret > pivot-40 && st.call < pivot+40 {
+				ls = append(ls, line{st.call, fmt.Sprintf("@%d..%d listener %d port %d stop()", st.call, st.ret, st.listener, st.port)})
+			}
+		}
+		sort.Slice(ls, func(i, j int) bool { return ls[i].at < ls[j].at })
+		var out []string
+		for i, l := range ls {
+			if i >= 30 {
+				break
+			}
+			out = append(out, l.s)
+		}
+		c.Sample("midicat-history-excerpt", map[string]any{"events_around_first_stop (@call..return on the logical clock, msg sender/seq)": out, "sends": len(h.sends), "deliveries": len(h.delivs), "stops": len(h.stops)})
+	}
 	// concurrency actually observed: overlapping Send calls
 	overlap := 0
 	ss := append([]sendEv(nil), h.sends...)
